@@ -28,7 +28,8 @@ for v in agg['violations']:
         err = mm.group(1) + ': ' + mm.group(2)
     err = re.sub(r"'[^']*'", "'_'", err)
     err = re.sub(r'[0-9]+', 'N', err)[:70]
-    groups[(v['kind'], v['case'].get('codec'), leaf, err)].append(v)
+    extra = '{}|{}|{}'.format(d.get('corruption', ''), d.get('node_kind', ''), d.get('containers', '')) if 'corruption' in d else ''
+    groups[(v['kind'], v['case'].get('codec'), leaf or extra, err)].append(v)
 for k, vs in sorted(groups.items(), key=lambda kv: -len(kv[1])):
     print(len(vs), k)
     v = min(vs, key=lambda v: len(json.dumps(v)))
